@@ -24,6 +24,17 @@ CLAIMED = {
         "design": "5 C18"},
 }
 
+CLAIMED["C17"] = {
+    "technique": "Coq proof over type descriptors (trait rules, smallest size_type, Itanium layout arithmetic, noexcept rules) + every instance of a large matrix decided by the compiler and compared with the vm_compute'd model",
+    "text": "Theorems in coq/Properties_C17.v, all for unbounded parameters: C17_trait (is_trivially_relocatable = declaration if any, else trivially copyable; pair rule), C17_smallest_size_type (least of 8/16/32/64 bits holding N), C17_layout_small (N*sizeof(T) <= 8 -> sizeof(SmallVector) = sizeof(vector)), C17_layout_large (otherwise at most N slots + 6 bytes of padding more; bound tight), C17_layout_fcv, C17_fcv_triv_dtor, C17_container_tr_conjunction, C17_noexcept. The tie: a generated probe (46 size/alignment shapes x 12 element kinds x N in 0..40 and the 255/256/65535/65536 boundaries x 4 size types, 38 compiler-decided constants per row, under -std=c++17 in quick and c++11/14/17/20 in thorough) is compiled against /repo's headers; every row must equal the model's value (evaluated by coqc vm_compute) and satisfy the property's inequalities directly.",
+    "note": "LP64 / Itanium ABI only (pointer size 8). Known finding: a non-relocatable user allocator is not part of the trait (known_findings.json). Trusted: g++ as the decision procedure of each instance, the probe generator, the row transcription.",
+    "design": "5 C17"}
+CLAIMED["C20"] = {
+    "technique": "Coq proof (read-only threads: every interleaving is conflict-free and returns sequential results) whose premise is a write-site table regenerated from clang's AST of the const members (obligation checked by vm_compute); ThreadSanitizer reader/writer runs as supporting search",
+    "text": "PARTIAL (logical half). Theorems C20_racefree (for every set of read-only threads and every interleaving: no two steps conflict, the shared state is unchanged, each read returns its sequential value), C20_footprint_readonly (forallb no_writes Footprint.table = true, where Gen/Footprint.v is regenerated on every run by translator/footprint.py from clang's AST of every const member function, copy constructor/assignment and comparison helper of the instantiated containers: assignments/++/non-const calls rooted in shared memory, const-dropping casts, writable pointers escaping, static locals, mutable members) and C20_table_racefree (combination). A const member that starts writing shared or static state makes the table non-empty and the obligation fail; the TSan driver (16 container kinds/states, 265 kind/operation pairs, readers + writers on distinct objects) then exhibits the race as the replay.",
+    "note": "Outside the model: the C++ memory model below sequential consistency, compiler-introduced accesses, libstdc++/malloc internals; the footprint extractor is trusted for completeness of write sites (hypothesis `respects` of C20_table_racefree). A clean TSan run proves nothing; it only supplies failing schedules.",
+    "design": "5 C20"}
+
 REASONS = {}
 
 
